@@ -948,7 +948,7 @@ func contextAfterText(c context, s []byte) (context, int) {
 	// Save the link element's rel attribute value if we are parsing it for the first time.
 	if c.state == stateAttr && c.element.name == "link" && c.attr.name == "rel" && c.linkRel == "" {
 		// c.attr.value holds the static text of the value that precedes this text node.
-		ret.linkRel = " " + strings.Join(strings.Fields(strings.TrimSpace(strings.ToLower(c.attr.value+string(s[:i])))), " ") + " "
+		ret.linkRel = " " + strings.Join(strings.Fields(strings.TrimSpace(asciiToLower([]byte(c.attr.value+string(s[:i]))))), " ") + " "
 		if c.attr.ambiguousValue {
 			ret.linkRel = unknownLinkRel
 		}
